@@ -1,4 +1,84 @@
-"""Self-test of the reference oracles (no repository code involved)."""
+"""Self-test of the reference oracles and generators (no solver code of the repository is run).
+
+* strategy iteration == brute-force enumeration (reachability and total reward) on
+  generated stopping games;
+* every constructed "stopping game" passes the exact end-component test;
+* hand-computed values of the paper's figure 5.5 game (3/4 from the initial state);
+* codec round-trip.
+A failure here is a harness error (exit 2), never a VIOLATION.
+"""
 import sys
-print("oracle self-test: placeholder ok")
+import time
+from fractions import Fraction as F
+
+import hypothesis
+from hypothesis import HealthCheck, Phase, given, settings
+
+from harness import codec, exact, games
+
+t0 = time.time()
+count = dict(games=0, brute=0, cyc=0)
+
+
+@hypothesis.seed(20261004)
+@settings(max_examples=300, database=None, deadline=None, suppress_health_check=list(HealthCheck),
+          phases=[Phase.generate])
+@given(games.stopping_games(max_inner=7))
+def si_equals_brute(g):
+    count["games"] += 1
+    assert exact.is_stopping(g), ("constructed game is not stopping", g)
+    assert codec.loads(codec.dumps(g)) == g
+    if exact.has_cycle(g):
+        count["cyc"] += 1
+    v1, _ = exact.strategy_iteration(g, "reach")
+    w1, _ = exact.strategy_iteration(g, "total")
+    if exact.n_strategy_pairs(g) <= 512:
+        count["brute"] += 1
+        assert v1 == exact.brute(g, "reach"), ("reach SI != brute", g)
+        assert w1 == exact.brute(g, "total"), ("total SI != brute", g)
+    T = exact.max_expected_steps(g)
+    assert T >= 0
+
+
+def figures():
+    P1, P2, PR = exact.P1, exact.P2, exact.PR
+    g55 = dict(rewards=[0, 2, 5 / 3, 0, 0, 0, 0, 0],
+               players=[P1, P2, P2, PR, PR, PR, PR, PR],
+               transition_list=[[("alfa", 1), ("beta", 2)], [(" ", 3)], [(" ", 4)],
+                                [(0.5, 5), (0.5, 6)], [(0.75, 6), (0.25, 7)], [(1, 5)], [(1, 6)], [(1, 7)]],
+               final_states=[6])
+    v = exact.reach_values(g55)
+    assert v == [F(3, 4), F(1, 2), F(3, 4), F(1, 2), F(3, 4), 0, 1, 0], v
+    assert exact.reach_values_stopping(g55) == v
+    assert exact.is_stopping(g55)
+    # conditioned on reaching 6 with beta only: reward 5/3 collected at state 2
+    cg = exact.conditioned_game(g55, [["beta"], [" "], [" "], None, None, None, None, None],
+                                [float(x) for x in v], True)
+    w = exact.total_reward_values(cg)
+    assert w[0] == F(5 / 3) and w[2] == F(5 / 3) and w[4] == 0, w
+    assert cg["transition_list"][4] == [(F(1), 6)], cg["transition_list"][4]
+    # a game with a player-only end component is not stopping, and its value needs the least fixed point
+    ec = dict(rewards=[0, 0, 0, 0], players=[P1, P1, PR, PR],
+              transition_list=[[("a", 1), ("b", 2)], [("a", 0)], [(0.5, 3), (0.5, 2)], [(1, 3)]],
+              final_states=[3])
+    assert not exact.is_stopping(ec)
+    assert exact.reach_values(ec) == [1, 1, 1, 1]
+    ec["transition_list"][2] = [(0.5, 3), (0.5, 1)]
+    assert exact.reach_values(ec) == [1, 1, 1, 1]
+    ec["players"][1] = P2
+    ec["transition_list"][1] = [("a", 0), ("b", 1)]
+    assert exact.reach_values(ec) == [F(1, 2), 0, F(1, 2), 1], exact.reach_values(ec)
+
+
+try:
+    si_equals_brute()
+    figures()
+except Exception as e:  # noqa
+    print(f"HARNESS-ERROR: oracle self-test failed: {type(e).__name__}: {e}")
+    sys.exit(2)
+if count["cyc"] < 30 or count["brute"] < 200:
+    print(f"HARNESS-ERROR: oracle self-test generator floor missed: {count}")
+    sys.exit(2)
+print(f"oracle self-test ok: {count['games']} stopping games ({count['cyc']} cyclic), "
+      f"{count['brute']} cross-checked against enumeration, {time.time() - t0:.1f}s")
 sys.exit(0)
